@@ -2,17 +2,18 @@
 
    Sources transcribed:
      src/cobald/interfaces/_proxy.py:33-55     PoolDecorator: all four properties forward to target
-     src/cobald/decorator/logger.py:84-103     Logger.demand getter / setter (log, then write)
+     src/cobald/decorator/logger.py:84-103     Logger.demand getter / setter (read target, log, write)
      src/cobald/decorator/logger.py:40-54,115-134  template test against _LOGGER_TEST_FIELDS
-     src/cobald/decorator/standardiser.py:42-86    Standardiser (one level, ideal arithmetic)
-     src/cobald/decorator/buffer.py:20-25      Buffer: demand is a stored attribute
      CPython 3.12 Objects/unicodeobject.c unicode_format_arg / unicode_format_arg_parse /
        unicode_format_getnextarg (the `%` operator with a mapping on the right-hand side)
+   Standardiser (decorator/standardiser.py) and Buffer (decorator/buffer.py) only re-define `demand`
+   and inherit supply / utilisation / allocation from PoolDecorator; C16 claims nothing about their
+   demand behaviour (C06 does for Standardiser), so they are OPAQUE levels whose demand behaviour is
+   a script (see `entry`).
 
-   A stack of decorators is a list, outermost first, over a plain pool record.  Standardiser and
-   Buffer carry their stored demand.  Reads and writes go through the stack by structural recursion.
-   A demand write returns the list of effects in order: the Logger records (with the values read
-   from the target BEFORE the write) and the final write to the pool, if it gets there. *)
+   A stack of decorators is a list, outermost first, over a plain pool record.  Reads and writes go
+   through the stack; a demand write returns the list of effects in order: ghost arrivals, the Logger
+   records (with the values read from the target BEFORE the write) and the write(s) to the pool. *)
 From Coq Require Import ZArith QArith Qabs Qround List Bool NArith String Ascii.
 From Cobald Require Import kit.QKit.
 Import ListNotations.
@@ -37,34 +38,22 @@ Inductive attr := Supply | Utilisation | Allocation.
 Definition attr_of (a : attr) (p : pool) : Q :=
   match a with Supply => p_supply p | Utilisation => p_util p | Allocation => p_alloc p end.
 
-(* Standardiser parameters; None = the infinite default on that side *)
-Record sparams := mkSP {
-  sp_min : option Q; sp_max : option Q; sp_gran : Q; sp_backlog : option Q; sp_surplus : option Q }.
+(* Standardiser, Buffer (and any other decorator that only re-defines `demand`) are OPAQUE levels:
+   C16 claims nothing about what they do to demand, only that supply / utilisation / allocation pass
+   (they inherit PoolDecorator's properties).  What an opaque level does with demand is given by a
+   script -- in the theorems: ANY script; in the correspondence run: what the real object was observed
+   to do.  An entry answers one call arriving at the level. *)
+Inductive action := AGet | ASet (v : Q).       (* what the level does to ITS target's demand *)
+Inductive entry :=
+| EGet (reads : nat) (ret : Q)                 (* demand read: reads its target `reads` times, returns ret *)
+| ESet (v : Q) (acts : list action).           (* demand write of v: then these actions on its target *)
 
 Inductive deco :=
 | Plain                                          (* PoolDecorator itself *)
 | LoggerD (name : N) (level : N) (msg : str)
-| StandardiserD (sp : sparams) (stored : Q)      (* _demand *)
-| BufferD (stored : Q).                          (* instance attribute demand *)
+| OpaqueD (cls : N) (script : list entry).
 
-Definition stack := list deco.
-
-(* standardiser.py:7-14 with infinite bounds as None *)
-Definition clamp (lo : option Q) (v : Q) (hi : option Q) : Q :=
-  match lo with
-  | Some l => if Qltb v l then l else
-      match hi with Some h => if Qltb h v then h else v | None => v end
-  | None => match hi with Some h => if Qltb h v then h else v | None => v end
-  end.
-
-(* standardiser.py:58-63 *)
-Definition clamp_demand (sp : sparams) (supply v : Q) : Q :=
-  let lo := match sp_backlog sp with Some b => Some (supply - b) | None => None end in
-  let hi := match sp_surplus sp with Some s => Some (supply + s) | None => None end in
-  clamp (sp_min sp) (clamp lo v hi) (sp_max sp).
-
-(* standardiser.py:17-19  n // base * base *)
-Definition floor_to (v g : Q) : Q := inject_Z (Qfloor (v / g)) * g.
+Definition stack := list deco.       (* outermost first *)
 
 (* supply / utilisation / allocation: _proxy.py:33-55, inherited unchanged by every decorator *)
 Fixpoint read_through (st : stack) (p : pool) (a : attr) : Q :=
@@ -73,62 +62,117 @@ Fixpoint read_through (st : stack) (p : pool) (a : attr) : Q :=
   | _ :: r => read_through r p a
   end.
 
-(* demand getter; the Standardiser's getter refreshes its stored value (standardiser.py:42-46) *)
-Fixpoint read_demand (st : stack) (p : pool) : Q * stack :=
-  match st with
-  | [] => (p_demand p, [])
-  | Plain :: r => let (d, r') := read_demand r p in (d, Plain :: r')
-  | LoggerD n l m :: r => let (d, r') := read_demand r p in (d, LoggerD n l m :: r')
-  | StandardiserD sp s :: r =>
-      let (d, r') := read_demand r p in
-      let s' := if Qle_bool (sp_gran sp) (Qabs (s - d)) then d else s in
-      (s', StandardiserD sp s' :: r')
-  | BufferD s :: r => (s, BufferD s :: r)
-  end.
-
-(* the args mapping of a record; target = how many decorators lie below the logger *)
+(* the args mapping of a record; target = how many levels lie below the logger *)
 Record fields := mkFields {
   f_value : Q; f_demand : Q; f_supply : Q; f_util : Q; f_alloc : Q; f_consumption : Q; f_target : nat }.
 
 Inductive effect :=
+| Arrive (below : nat) (v : Q)      (* ghost: a demand write of v arrives at the level with `below` levels under it *)
 | Log (name : N) (level : N) (msg : str) (f : fields)
 | PoolWrite (v : Q).
 
-(* demand setter through a stack: effects in order, new stack, new pool.
-   A Logger first READS its target (which may refresh Standardisers below it) and then writes through
-   the refreshed target, so the recursion is not structural in the stack itself; `spine` is only the
-   recursion budget (any list at least as long as the stack, see `write`). *)
-Fixpoint write_go (spine : stack) (st : stack) (p : pool) (v : Q) : list effect * stack * pool :=
+(* what an opaque level does to its target, given how its target reads (R) and writes (W) *)
+Section Loops.
+  Variable R : stack -> pool -> option (Q * stack).
+  Variable W : stack -> pool -> Q -> option (list effect * stack * pool).
+
+  Fixpoint rd_iter (k : nat) (r : stack) (p : pool) : option stack :=
+    match k with
+    | O => Some r
+    | S k' => match R r p with Some (_, r1) => rd_iter k' r1 p | None => None end
+    end.
+
+  Fixpoint acts_go (acts : list action) (r : stack) (p : pool) : option (list effect * stack * pool) :=
+    match acts with
+    | [] => Some ([], r, p)
+    | AGet :: rest =>
+        match R r p with
+        | Some (_, r1) => acts_go rest r1 p
+        | None => None
+        end
+    | ASet w :: rest =>
+        match W r p w with
+        | Some (e1, r1, p1) =>
+            match acts_go rest r1 p1 with
+            | Some (e2, r2, p2) => Some (e1 ++ e2, r2, p2)
+            | None => None
+            end
+        | None => None
+        end
+    end.
+End Loops.
+
+(* demand getter through a stack.  A read may change the levels below (scripts are consumed, i.e.
+   an opaque level may update itself), so the stack is returned too.  None = a script does not fit
+   the call that arrives, or the budget is too small (the budget used is the stack's length, which
+   always suffices: reads and writes keep the length). *)
+Fixpoint rd (fuel : nat) (st : stack) (p : pool) : option (Q * stack) :=
   match st with
-  | [] => ([PoolWrite v], [], set_demand p v)
+  | [] => Some (p_demand p, [])
   | d :: r =>
-      match spine with
-      | [] => ([], st, p)
-      | _ :: sp =>
+      match fuel with
+      | O => None
+      | S f =>
           match d with
-          | Plain => let '(e, r', p') := write_go sp r p v in (e, Plain :: r', p')
+          | Plain =>
+              match rd f r p with Some (x, r') => Some (x, Plain :: r') | None => None end
           | LoggerD n l m =>
-              (* logger.py:90-103 *)
-              let (dm, r1) := read_demand r p in
-              let rec_ := Log n l m (mkFields v dm (read_through r p Supply) (read_through r p Utilisation)
-                                       (read_through r p Allocation) (read_through r p Allocation)
-                                       (List.length r)) in
-              let '(e, r2, p') := write_go sp r1 p v in
-              (rec_ :: e, LoggerD n l m :: r2, p')
-          | StandardiserD prm s =>
-              (* standardiser.py:48-56 *)
-              let sup := read_through r p Supply in
-              let s' := clamp_demand prm sup v in
-              let fwd := if Qeq_bool (sp_gran prm) 1 then s'
-                         else clamp_demand prm sup (floor_to v (sp_gran prm)) in
-              let '(e, r', p') := write_go sp r p fwd in
-              (e, StandardiserD prm s' :: r', p')
-          | BufferD s => ([], BufferD v :: r, p)
+              (* logger.py:84-86 *)
+              match rd f r p with Some (x, r') => Some (x, LoggerD n l m :: r') | None => None end
+          | OpaqueD c (EGet k ret :: sc) =>
+              match rd_iter (rd f) k r p with
+              | Some r' => Some (ret, OpaqueD c sc :: r')
+              | None => None
+              end
+          | OpaqueD _ _ => None
           end
       end
   end.
 
-Definition write (st : stack) (p : pool) (v : Q) : list effect * stack * pool := write_go st st p v.
+Definition read_demand (st : stack) (p : pool) : option (Q * stack) := rd (List.length st) st p.
+
+(* demand setter through a stack: effects in order, new stack, new pool *)
+Fixpoint wr (fuel : nat) (st : stack) (p : pool) (v : Q) : option (list effect * stack * pool) :=
+  match st with
+  | [] => Some ([PoolWrite v], [], set_demand p v)
+  | d :: r =>
+      match fuel with
+      | O => None
+      | S f =>
+          match d with
+          | Plain =>
+              (* _proxy.py:43-45 *)
+              match wr f r p v with
+              | Some (e, r', p') => Some (Arrive (List.length r) v :: e, Plain :: r', p')
+              | None => None
+              end
+          | LoggerD n l m =>
+              (* logger.py:88-103: read the target, log, then write the target *)
+              match rd f r p with
+              | Some (dm, r1) =>
+                  let rec_ := Log n l m (mkFields v dm (read_through r p Supply) (read_through r p Utilisation)
+                                           (read_through r p Allocation) (read_through r p Allocation)
+                                           (List.length r)) in
+                  match wr f r1 p v with
+                  | Some (e, r2, p') => Some (Arrive (List.length r) v :: rec_ :: e, LoggerD n l m :: r2, p')
+                  | None => None
+                  end
+              | None => None
+              end
+          | OpaqueD c (ESet v0 acts :: sc) =>
+              if Qeq_bool v0 v then
+                match acts_go (rd f) (wr f) acts r p with
+                | Some (e, r', p') => Some (Arrive (List.length r) v :: e, OpaqueD c sc :: r', p')
+                | None => None
+                end
+              else None
+          | OpaqueD _ _ => None
+          end
+      end
+  end.
+
+Definition write (st : stack) (p : pool) (v : Q) : option (list effect * stack * pool) :=
+  wr (List.length st) st p v.
 
 (* ------------------------------------------------------------------ the `%` operator on a mapping *)
 Inductive tv := TFloat | TNone | TMap.       (* test value: a float, None, the mapping itself *)
@@ -269,53 +313,61 @@ Definition warnings_of (msg : str) : nat :=
   List.length (filter (fun k => str_eqb k k_consumption) (snd (pct_scan test_fields msg))).
 
 (* ------------------------------------------------------------------ construction of a stack *)
+Inductive cerr := CRuntime | CValue | CType.
+
 Inductive dspec :=
 | SPlain
 | SLogger (name : option N) (level : N) (msg : str)    (* name None: target.__class__.__qualname__ *)
-| SStandardiser (sp : sparams)
-| SBuffer.
+| SOpaque (cls : N) (init_reads : nat) (fail : option cerr) (script : list entry).
+    (* its constructor reads target.demand init_reads times, then fails or not (observed / arbitrary) *)
 
-Inductive cerr := CRuntime | CValue | CType.
-
-(* logger names given by class: ids of the classes; explicit names are numbered from 100 *)
+(* logger names given by class: PoolDecorator 1, Logger 2, opaque classes by their own id
+   (Standardiser 3, Buffer 4), the pool 0; explicit names are numbered from 100 *)
 Definition class_id (d : deco) : N :=
-  match d with Plain => 1 | LoggerD _ _ _ => 2 | StandardiserD _ _ => 3 | BufferD _ => 4 end%N.
+  match d with Plain => 1 | LoggerD _ _ _ => 2 | OpaqueD c _ => c end%N.
 Definition top_class (st : stack) : N := match st with [] => 0%N | d :: _ => class_id d end.
 
-Definition opt_le (a b : option Q) : bool :=      (* minimum <= maximum with -inf / +inf defaults *)
-  match a, b with Some x, Some y => Qle_bool x y | _, _ => true end.
-Definition opt_pos (a : option Q) : bool := match a with Some x => Qltb 0 x | None => true end.
+Fixpoint read_n (k : nat) (st : stack) (p : pool) : option stack :=
+  match k with
+  | O => Some st
+  | S k' => match read_demand st p with Some (_, st') => read_n k' st' p | None => None end
+  end.
 
-(* one constructor call on top of an already built stack; returns the new stack (the inner part may
-   change: Standardiser.__init__ and Buffer.__init__ read target.demand) and the number of warnings *)
-Definition construct (sp : dspec) (inner : stack) (p : pool) : (cerr + stack) * nat :=
+Inductive built := BErr (e : cerr) | BStack (st : stack) | BStuck.
+
+(* one constructor call on top of an already built stack; also the number of FutureWarnings *)
+Definition construct (sp : dspec) (inner : stack) (p : pool) : built * nat :=
   match sp with
-  | SPlain => (inr (Plain :: inner), 0%nat)
+  | SPlain => (BStack (Plain :: inner), 0%nat)
   | SLogger name level msg =>
+      (* logger.py:115-134 *)
       match logger_init msg with
       | Accepted =>
           let n := match name with Some n => n | None => top_class inner end in
-          (inr (LoggerD n level msg :: inner), warnings_of msg)
-      | Rejected => (inl CRuntime, warnings_of msg)
-      | RaisesValue => (inl CValue, warnings_of msg)
-      | RaisesType => (inl CType, warnings_of msg)
+          (BStack (LoggerD n level msg :: inner), warnings_of msg)
+      | Rejected => (BErr CRuntime, warnings_of msg)
+      | RaisesValue => (BErr CValue, warnings_of msg)
+      | RaisesType => (BErr CType, warnings_of msg)
       end
-  | SStandardiser prm =>
-      if opt_le (sp_min prm) (sp_max prm) && opt_pos (sp_surplus prm) && opt_pos (sp_backlog prm)
-         && Qltb 0 (sp_gran prm)
-      then let (d, inner') := read_demand inner p in (inr (StandardiserD prm d :: inner'), 0%nat)
-      else (inl CValue, 0%nat)
-  | SBuffer => let (d, inner') := read_demand inner p in (inr (BufferD d :: inner'), 0%nat)
+  | SOpaque c k fail sc =>
+      match read_n k inner p with
+      | Some inner' =>
+          match fail with
+          | Some e => (BErr e, 0%nat)
+          | None => (BStack (OpaqueD c sc :: inner'), 0%nat)
+          end
+      | None => (BStuck, 0%nat)
+      end
   end.
 
 (* specs outermost first; built inside out; stops at the first failing constructor *)
-Fixpoint build (specs : list dspec) (p : pool) : (cerr + stack) * nat :=
+Fixpoint build (specs : list dspec) (p : pool) : built * nat :=
   match specs with
-  | [] => (inr [], 0%nat)
+  | [] => (BStack [], 0%nat)
   | s :: r =>
       match build r p with
-      | (inr inner, w) => let (res, w') := construct s inner p in (res, (w + w')%nat)
-      | (inl e, w) => (inl e, w)
+      | (BStack inner, w) => let (res, w') := construct s inner p in (res, (w + w')%nat)
+      | other => other
       end
   end.
 
@@ -329,14 +381,22 @@ Inductive op :=
 Inductive obs :=
 | ORead (d s u a : Q)
 | OWrite (e : list effect)
-| ONone.
+| ONone
+| OStuck.
 
 Definition step (st : stack) (p : pool) (o : op) : obs * stack * pool :=
   match o with
   | Read =>
-      let (d, st') := read_demand st p in
-      (ORead d (read_through st p Supply) (read_through st p Utilisation) (read_through st p Allocation), st', p)
-  | Write v => let '(e, st', p') := write st p v in (OWrite e, st', p')
+      match read_demand st p with
+      | Some (d, st') =>
+          (ORead d (read_through st p Supply) (read_through st p Utilisation) (read_through st p Allocation), st', p)
+      | None => (OStuck, st, p)
+      end
+  | Write v =>
+      match write st p v with
+      | Some (e, st', p') => (OWrite e, st', p')
+      | None => (OStuck, st, p)
+      end
   | PoolState s u a => (ONone, st, mkPool (p_demand p) s u a)
   | PoolDemand d => (ONone, st, set_demand p d)
   end.
